@@ -110,6 +110,15 @@ def r_expr(e, twin):
         return f"[{r_expr(e[1], twin)} for cv_ in {r_expr(e[2], twin)}]"
     if k == "genexp":
         return f"(cv_ for cv_ in {r_expr(e[1], twin)})"
+    if k == "lam2":
+        # two sibling lambdas on one line that differ only in a constant (0.0 / -0.0) or only
+        # one level deeper
+        a, b = ("0.0", "-0.0") if e[2] == 0 else ("(lambda: 1)()", "(lambda: 2)()")
+        return f"((lambda: {a}) if {r_expr(e[1], twin)} else (lambda: {b}))()"
+    if k == "gsum":
+        # a generator expression consumed on the spot; its element may hold a walrus, which binds
+        # a variable of the enclosing function (PEP 572)
+        return f"sum({r_expr(e[1], twin)} for cv_ in {r_expr(e[2], twin)})"
     if k == "dict":
         return "{" + ", ".join(f"{r_expr(a, twin)}: {r_expr(b, twin)}" for a, b in e[1]) + "}"
     if k == "str":
@@ -457,7 +466,7 @@ def walk_exprs(stmts):
                         yield from ex(p)
 
 
-_EK = {"int", "var", "bin", "cmp", "E", "len", "walrus", "ifexp", "idx", "list", "tuple", "lam", "comp", "genexp",
+_EK = {"int", "var", "bin", "cmp", "E", "len", "walrus", "ifexp", "idx", "list", "tuple", "lam", "comp", "genexp", "gsum", "lam2",
        "dict", "str", "range", "attr", "call", "neg"}
 
 
@@ -581,6 +590,7 @@ class Flags:
         self.yield_from = True
         self.bare_ann = False
         self.walrus_in_comp = False
+        self.walrus_in_genexp = False
         self.tags = False
         self.unbound_reads = True
         self.finally_return = True
@@ -629,7 +639,7 @@ def functions(flags=None, want_gen=None):
         def int_expr(bound, depth=0):
             opts = ["int", "int", "var", "var", "var"]
             if depth < 2:
-                opts += ["bin", "bin", "E", "E", "cmp", "len", "ifexp", "lam", "walrus", "neg", "idxxs", "G", "GN", "call"]
+                opts += ["bin", "bin", "E", "E", "cmp", "len", "ifexp", "lam", "walrus", "neg", "idxxs", "G", "GN", "call", "gsum", "lam2"]
                 if has_o:
                     opts.append("attr")
                 if closure:
@@ -671,6 +681,15 @@ def functions(flags=None, want_gen=None):
                 return ("idx", "xs", ("int", draw(st.integers(0, 2))))
             if k == "G":
                 return ("var", draw(st.sampled_from(["G1", "G2"])))
+            if k == "lam2":
+                return ("lam2", int_expr(bound, depth + 1), draw(st.integers(0, 1)))
+            if k == "gsum":
+                v = draw(st.sampled_from(LOCALS))
+                if v in excluded or not fl.walrus_in_genexp:
+                    return ("int", 3)
+                bound.add(v)
+                return ("gsum", ("walrus", v, ("bin", "*", ("var", "cv_"), ("int", draw(st.integers(1, 3))))),
+                        ("list", [("int", draw(st.integers(0, 4))) for _ in range(draw(st.integers(0, 3)))]))
             if k == "GN":
                 # a global whose value is None (the `HOOK = None` idiom)
                 return ("ifexp", ("var", "GN"), ("int", 1), ("int", draw(st.integers(0, 3))))
